@@ -12,7 +12,7 @@ def prop(pid, **kw):
 prop('C12',
      quick=dict(sweep=True, pbt=(60000, 420, 6), fuzz=(300000, 420, 4)),
      thorough=dict(sweep=True, pbt=(1600000, 600, 10), fuzz=(8000000, 600, 5)),
-     floor=dict(quick=100000, thorough=1000000), alloc_cap_mb=4,
+     floor=dict(quick=150000, thorough=1000000), alloc_cap_mb=4,
      rule=("Histories of 1..40 operations {Read, ReadPartial, Peek, Seek, SeekForward, SeekBackward, SeekBeginning, SeekEnd, "
            "typed fixed/container/size-prefixed/NUL-string reads incl. the std::string overloads} with arguments from the boundary table {0,1,len-1,len,len+1,rem-1,rem,rem+1,"
            "2^31,2^32,2^63,2^64-1,2^64-pos,...} decoded from a byte tape (rapidcheck + libFuzzer), run on MemoryReader, MemoryReader slice, "
@@ -32,7 +32,7 @@ prop('C12',
 prop('C13',
      quick=dict(sweep=True, pbt=(48000, 700, 10), fuzz=(160000, 700, 4)),
      thorough=dict(sweep=True, pbt=(800000, 900, 10), fuzz=(2000000, 900, 5)),
-     floor=dict(quick=20000, thorough=300000), alloc_cap_mb=16,
+     floor=dict(quick=60000, thorough=300000), alloc_cap_mb=16,
      rule=("Forest histories: a 0..200 byte source (thorough ..2000) held in memory and in a file, optional reference-encoded VOL and CLM "
            "archives; 1..60 twelve-byte records decoded from a tape choose among Slice(s,n)/Slice(n)/copy of any live stream (depth<=5, <=14 live), "
            "Read/ReadPartial/Peek/Seek/SeekForward/SeekBackward/SeekBeginning/SeekEnd on any live stream, drop, and archive calls "
@@ -77,7 +77,7 @@ prop('C14',
 prop('C19',
      quick=dict(sweep=True, pbt=(60000, 300, 6), fuzz=(200000, 300, 4)),
      thorough=dict(sweep=True, pbt=(2000000, 400, 10), fuzz=(6000000, 400, 5), stage_timeout=3600),
-     floor=dict(quick=1000000, thorough=4000000000), alloc_cap_mb=64,
+     floor=dict(quick=5000000, thorough=4000000000), alloc_cap_mb=64,
      rule=("Sweep (exhaustive): all 820 strings of length <=3 over {a,A,b,Z,z,0,_,.,/} - every unordered pair for asymmetry, IsEqual == ASCII case-fold "
            "equality == incomparability, PathsAreEqual symmetry and containment of IsEqual; every triple of the 91 strings of length <=2 for transitivity of "
            "the order, of incomparability and of PathsAreEqual; per string irreflexivity/reflexivity, p ~ ./p for every relative p (plain and directory-"
@@ -100,7 +100,7 @@ prop('C19',
 prop('C15',
      quick=dict(sweep=True, pbt=(6000, 12000, 10), fuzz=(12000, 8000, 4)),
      thorough=dict(sweep=True, pbt=(160000, 30000, 12), fuzz=(400000, 16000, 4), stage_timeout=3000),
-     floor=dict(quick=60000, thorough=1000000), alloc_cap_mb=64,
+     floor=dict(quick=25000, thorough=1000000), alloc_cap_mb=64,
      rule=("Sweep: every update sequence up to depth d on trees of n=2..6 symbols (quick d=10,8,7,6,5; thorough d=14,10,9,8,7), each prefix checked; initial trees "
            "for every n=2..330 with out-of-range symbols/nodes refused without change; runs of exactly 65535-n updates (round-robin, single-symbol, pseudo-random) on "
            "n=2,3,314 (thorough also 4,5,17,100,313), then three further updates that must be refused leaving shape and all bit strings unchanged; deep runs on n=24,40,100,314: chain symbols receive 1+(weight of everything lighter) updates each, which stacks them one per level (codes of 19..21 bits, beyond a 16-bit accumulator), in two update orders; out-of-range symbols n, n+1, 2n-1, 32768, 32768+n, 65536-2n, 65536-(2n-1), 65536-n, 65534, 65535. pbt/fuzz: n from "
@@ -120,7 +120,7 @@ prop('C15',
 prop('C04',
      quick=dict(sweep=True, pbt=(8000, 1500, 10), fuzz=(30000, 1500, 5)),
      thorough=dict(sweep=True, pbt=(1200000, 8000, 11), fuzz=(6000000, 6000, 5), stage_timeout=3400),
-     floor=dict(quick=20000, thorough=1000000), alloc_cap_mb=64,
+     floor=dict(quick=12000, thorough=1000000), alloc_cap_mb=64,
      rule=("Inputs from three families chosen by the tape: random bytes (0..4096; thorough ..20000), constant/periodic bytes (cheap way past the 65221-update capacity), "
            "and streams produced by an independent token-level encoder from literal/match token lists (every match length 3..60, distances from each of the six "
            "position-code length classes incl. 1, 4096 and matches overlapping the write cursor or reaching into the space-filled window). Each input is decoded by an "
@@ -141,7 +141,7 @@ prop('C04',
 prop('C01',
      quick=dict(sweep=True, pbt=(4000, 900, 10), fuzz=(8000, 900, 4)),
      thorough=dict(sweep=True, pbt=(200000, 2500, 11), fuzz=(400000, 2500, 4), stage_timeout=3400),
-     floor=dict(quick=5000, thorough=100000), alloc_cap_mb=64,
+     floor=dict(quick=4000, thorough=100000), alloc_cap_mb=64,
      rule=("File sets decoded from a tape: 0..12 files (thorough ..40), sizes from {0,1,2,3,4,5..64,131071..131075,262143..262146,<=40000 (thorough 300000),<300}, pseudo-random "
            "contents, names of 1..24 characters over letters of both cases, digits and the punctuation _^[]`-.,+=@#~!(){} and space (distinct ignoring case; one later name in four extends an earlier name in another letter case by .txt/.old/x/_/0/./space - prefix-related names), placed in ./in/, "
            "./in/d0/, ./in/d1/sub/, listed in a tape-chosen permutation and spelling (x, ./x, d//x, d/./x, absolute); output path spelled five ways, pre-existing in half the cases, or (one case in eight) placed next to an input under a name that is a proper prefix of that input's name. "
@@ -162,7 +162,7 @@ prop('C01',
 prop('C02',
      quick=dict(sweep=True, pbt=(8000, 900, 10), fuzz=(16000, 900, 4)),
      thorough=dict(sweep=True, pbt=(400000, 2000, 11), fuzz=(1000000, 2000, 4), stage_timeout=3400),
-     floor=dict(quick=10000, thorough=200000), alloc_cap_mb=64,
+     floor=dict(quick=8000, thorough=200000), alloc_cap_mb=64,
      rule=("(i) One case in three packs a generated file set (generator of C01) with the library and hands the raw bytes to an independent strict VOL decoder that asserts, field by "
            "field: 'VOL ' length tiles the header (= padded tables + 24) and the first block follows it; 'volh' length 0; 'vols' = u32 actual length + NUL-terminated names in "
            "index order at the recorded offsets + zero pad to 4; 'voli' = 14-byte entries + zero pad; every section word carries the 4-byte-padding flag; block offsets 4-aligned, "
@@ -182,7 +182,7 @@ prop('C02',
 prop('C05',
      quick=dict(sweep=True, pbt=(20000, 400, 10), fuzz=(100000, 700, 5)),
      thorough=dict(sweep=True, pbt=(300000, 600, 10), fuzz=(3000000, 900, 6), stage_timeout=3400),
-     floor=dict(quick=12000, thorough=300000), alloc_cap_mb=128,
+     floor=dict(quick=40000, thorough=300000), alloc_cap_mb=128,
      rule=("Sweep over 6 reference-encoded VOL seeds (empty, 1 member, 4 members incl. zero-length and LZH, unused trailing slots, extra name padding, LZH member last), 3 CLM seeds and 6 WAV seeds: "
            "every proper prefix; every 32-bit field (section lengths, name-table length, every index field, VBLK headers; CLM version/format/count/name/offset/length; RIFF and chunk "
            "lengths) x {0,1,2,13,14,15,v-1,v+1,v^2^31,file size +-1,file size-8,2^31-1,2^31,0xFFFFFFF8,0xFFFFFFFF,...}; coordinated pairs (index length +1..28, name table shortened "
@@ -203,7 +203,7 @@ prop('C05',
 prop('C03',
      quick=dict(sweep=True, pbt=(20000, 700, 10), fuzz=(40000, 700, 4)),
      thorough=dict(sweep=True, pbt=(200000, 1500, 11), fuzz=(500000, 1500, 4), stage_timeout=3400),
-     floor=dict(quick=5000, thorough=100000), alloc_cap_mb=64,
+     floor=dict(quick=20000, thorough=100000), alloc_cap_mb=64,
      rule=("WAV sets decoded from a tape: 0..8 RIFF/WAVE files sharing a random WaveFormat, 'fmt ' chunk of 16 or 18 bytes, 'data' length from {0,1,2,3,7,64,100,4096,random<=4096 "
            "(thorough 200000)} (odd lengths padded per RIFF when a chunk follows), 0..2 extra even-sized chunks with tags from {LIST,'cue ',fact,smpl,JUNK,abcd,DATA,'Fmt '} before "
            "'fmt ', 0..1 between 'fmt ' and 'data', 0..2 after 'data'; RIFF size = file-8; base names 1..8 characters [A-Za-z0-9_] distinct ignoring case, extension .wav in four letter "
@@ -223,7 +223,7 @@ prop('C03',
 prop('C17',
      quick=dict(sweep=True, pbt=(5000, 500, 10), fuzz=(9000, 500, 4)),
      thorough=dict(sweep=True, pbt=(100000, 700, 11), fuzz=(200000, 700, 4), stage_timeout=3400),
-     floor=dict(quick=1500, thorough=50000), alloc_cap_mb=64,
+     floor=dict(quick=4000, thorough=50000), alloc_cap_mb=64,
      rule=("Directory layouts decoded from a tape inside a digit-named scratch directory: 0..6 loose files, 0..3 VOL and 0..2 CLM archives written by independent encoders, names drawn "
            "from a 16-name pool (incl. .a.txt and ..b.dat, whose leading dots are not a ./ prefix) chosen so that loose files and members collide in all letter-case variants (a.txt/A.TXT/a.TXT, b.dat/B.dat, trk1/TRK1, ...), archives optionally with "
            "duplicate member names, VOL archives optionally with 1..3 unused trailing index slots (stale fields zero or random), optionally with upper-case extensions (not loaded), optional sub-directory, directories named 8.vol and 9.clm. Per layout: archive-level laws on each "
@@ -242,9 +242,9 @@ prop('C17',
      design_ref="DESIGN.md section 3, C17")
 
 prop('C20',
-     quick=dict(sweep=True, pbt=(12000, 200, 10)),
-     thorough=dict(sweep=True, pbt=(60000, 200, 10), stage_timeout=3400),
-     floor=dict(quick=15000, thorough=60000), alloc_cap_mb=64, case_timeout=600,
+     quick=dict(sweep=True, pbt=(60000, 200, 10)),
+     thorough=dict(sweep=True, pbt=(300000, 200, 12), stage_timeout=3400),
+     floor=dict(quick=20000, thorough=100000), alloc_cap_mb=64, case_timeout=600,
      rule=("Every case is at or just beyond an on-disk limit. Sweep (exhaustive for the layer matrix): ArtFile::Write of a frame with every 7-bit layer count 0..127 against every layer-list "
            "length 0..130 (16768 combinations: must throw iff they differ, else re-read equal) plus list lengths count+128/256/384/512/1024/65536 for every count (a narrowed comparison would pass them); size-prefixed writes of 127/128/255/256/32767/32768/65535/65536 elements with i8/u8/i16/u16/u32 "
            "prefixes; CLM names of 7..10 characters and dotted stems (abcd.efg, snd1.take2, .longername, a..b, ...: the whole stem before the last extension counts); frames whose count/list differences cancel (+d and -d, d in {1,2,5,64,127}, within one animation and across two); VolFile::CreateArchive with sparse members of 2^31, 2^31+1, 2^32-1, 2^32, 2^32+5 bytes among small ones and member sets whose block offsets "
@@ -264,7 +264,7 @@ prop('C20',
 prop('C06',
      quick=dict(sweep=True, pbt=(12000, 700, 10), fuzz=(40000, 700, 5)),
      thorough=dict(sweep=True, pbt=(600000, 900, 11), fuzz=(3000000, 900, 5), stage_timeout=3400),
-     floor=dict(quick=20000, thorough=500000), alloc_cap_mb=256,
+     floor=dict(quick=16000, thorough=500000), alloc_cap_mb=256,
      rule=("Logical maps decoded from a tape and serialised by an independent encoder: log2 width 0..10, height 0..(tiles <= 65536; thorough 2^20), tile words random / multiplicative / low-half, "
            "arbitrary clip rectangle, 0..8 tileset sources (names 0..8 bytes, empty names carry no tile count), 0..40 or 2048 mappings (all four 16-bit fields arbitrary in half the maps), 0..4 terrain types (264 bytes), 0..6 tile groups incl. zero "
            "area and up to 257 tiles wide with names 0..20, saved-game flag from {0,1,2,-1,256,INT_MIN,random}, version tags >= 0x1010 incl. 0x80000000/0xFFFFFFFF, arbitrary 'unknown' group-header word, optional trailing "
@@ -282,7 +282,7 @@ prop('C06',
 prop('C07',
      quick=dict(sweep=True, pbt=(5000, 500, 10), fuzz=(40000, 600, 5)),
      thorough=dict(sweep=True, pbt=(400000, 800, 10), fuzz=(8000000, 800, 6), stage_timeout=3400),
-     floor=dict(quick=30000, thorough=1000000), alloc_cap_mb=64, case_timeout=90,
+     floor=dict(quick=100000, thorough=1000000), alloc_cap_mb=64, case_timeout=90,
      rule=("Sweep: 4 reference-encoded maps (no tiles; 32x2; 2x3 with every table populated; 64x1 saved-flag) - every proper prefix of the consumed portion must be rejected, the intact file accepted "
            "with all fields equal; every header/length field x {0,1,5,8..11,16,20,30..33,63,64,255,2^16,2^31-1,2^31,2^32-1,0x100F,0x1010,v+-1}; all 17x13 (log2 width, height) pairs incl. log2 >= 32 and "
            "products beyond 2^32 on a tile-less map (so a wrapped tile count would be accepted); saved games (0x1E025 filler bytes + map beginning + tag + unit block with 0..2 object-1 records, "
@@ -300,9 +300,9 @@ prop('C07',
      design_ref="DESIGN.md section 3, C07")
 
 prop('C16',
-     quick=dict(sweep=True, sweep_workers=4, pbt=(2400, 120, 10)),
+     quick=dict(sweep=True, sweep_workers=4, pbt=(8000, 120, 10)),
      thorough=dict(sweep=True, sweep_workers=14, pbt=(6000, 120, 2), stage_timeout=3400),
-     floor=dict(quick=300, thorough=1500), alloc_cap_mb=256, case_timeout=300,
+     floor=dict(quick=800, thorough=1500), alloc_cap_mb=256, case_timeout=300,
      rule=("Maps built through the public route ReadMap(reference-encoded bytes) with pseudo-random tile words whose mapping index cycles through all 2048 values and 2048 distinct mapping entries. "
            "Sweep: every width 2^5..2^10 x heights {1,2,3,31,32,33,64,255,256} (thorough: all heights 1..256, 1536 maps, 66M tiles). Per map: reported width/height/count equal the header; for EVERY "
            "coordinate the independent index ((x>>5)*h+y)*32+(x&31) is in range and distinct (exact cover), and GetCellType / GetTileMappingIndex / GetLavaPossible / GetTilesetIndex / GetImageIndex "
@@ -322,7 +322,7 @@ prop('C16',
 prop('C08',
      quick=dict(sweep=True, pbt=(90000, 700, 10), fuzz=(300000, 700, 5)),
      thorough=dict(sweep=True, pbt=(1500000, 900, 11), fuzz=(8000000, 900, 5), stage_timeout=3400),
-     floor=dict(quick=50000, thorough=1000000), alloc_cap_mb=128,
+     floor=dict(quick=100000, thorough=1000000), alloc_cap_mb=128,
      rule=("File family: indexed bitmaps emitted by an independent encoder from a tape - depth 1/4/8, width 0..70 (every residue of row bits mod 32) plus {100,255,256,257,1000,4097}, height "
            "-40..40 incl. 0 plus {+-300}, full table (used colours 0) or partial 1..2^depth, random palette, random pixels WITH random row padding, arbitrary resolution/image-size (random, 0, or exactly the pixel byte count)/important-colour/"
            "reserved fields, one file in ten with a non-zero compression field (oracle: refused, or accepted and lawful), optionally size and pixel offset both shifted. Factory family: CreateIndexed(depth,w,h[,palette[,pixels]]) with partial/full palettes and pixels random in the "
@@ -340,7 +340,7 @@ prop('C08',
 prop('C09',
      quick=dict(sweep=True, pbt=(80000, 200, 10), fuzz=(160000, 200, 4)),
      thorough=dict(sweep=True, pbt=(500000, 200, 11), fuzz=(1500000, 200, 4), stage_timeout=3400),
-     floor=dict(quick=15000, thorough=500000), alloc_cap_mb=128,
+     floor=dict(quick=70000, thorough=500000), alloc_cap_mb=128,
      rule=("Pictures decoded from a tape: height 32*k (k 0..8 and {31,32,33,47,63,64,65,100}, thorough ..64), 256 pseudo-random colours (one in six grey so red==blue), pseudo-random pixels, built with the factory in BOTH scan-line "
            "orientations. Oracle per picture and orientation: WriteCustomTileset bytes == an independent description of the format (PBMP + 1068+32h, head 0x14 {2,32,h,8,8}, PPAL 1048, head 4 {1}, "
            "data 1024 with blue-green-red-alpha entries, data 32h with rows top-down) and identical for both orientations; the caller's bitmap is unchanged; ReadTileset of those bytes gives the same "
@@ -359,7 +359,7 @@ prop('C09',
 prop('C10',
      quick=dict(sweep=True, pbt=(60000, 900, 10), fuzz=(180000, 900, 5)),
      thorough=dict(sweep=True, pbt=(800000, 1200, 11), fuzz=(4000000, 1200, 5), stage_timeout=3400),
-     floor=dict(quick=30000, thorough=800000), alloc_cap_mb=64,
+     floor=dict(quick=70000, thorough=800000), alloc_cap_mb=64,
      rule=("Logical PRT structures decoded from a tape and serialised by an independent encoder: 0..3 palettes (pseudo-random 1024 bytes; section headers canonical or, one in five, non-canonical but "
            "accepted: lengths satisfying the sum rule, arbitrary remaining-tag count), 0..12 images (palette index < count, scan line = width rounded up to 4, widths {0,1,3,4,5,31..33,640,"
            "0xFFFFFFF9,0xFFFFFFFC,random<2000}), 0..5 animations with 0..6 frames in every combination of the two optional-data flags, layer lists of 0..3 or {0,1,64,126,127} entries, unknown "
@@ -379,7 +379,7 @@ prop('C10',
 prop('C11',
      quick=dict(sweep=True, pbt=(12000, 500, 10), fuzz=(150000, 1400, 5)),
      thorough=dict(sweep=True, pbt=(400000, 700, 10), fuzz=(10000000, 2000, 6), stage_timeout=3400),
-     floor=dict(quick=40000, thorough=1000000), alloc_cap_mb=64, case_timeout=60,
+     floor=dict(quick=50000, thorough=1000000), alloc_cap_mb=64, case_timeout=60,
      rule=("Three loaders (BitmapFile::ReadIndexed, Tileset::ReadTileset in both formats, ArtFile::Read; memory readers and - for every prefix near the ends and every fifth one, every intact seed and a quarter of the generated cases - the FILE-backed entry points ReadIndexed(filename), ReadTileset over a FileReader, ArtFile::Read(filename)) fed with: sweep - 4 reference-encoded seed files per loader: the intact file must load, every "
            "proper prefix must be refused, every header field x 33 boundary values (0,1,..,40,54,..,2^15,2^16,0x7FFFFFE0,2^31-1,2^31,2^31+1,0xFFFFFFE0,0xFFFFFFF8,0xFFFFFFFC,2^32-1,v+-1); "
            "constructed wrap-around bitmaps: for depths 1/4/8, widths -1..-64, INT32_MIN..INT32_MIN+3, -65536, -2^28 and heights +-1..64, +-2^7..2^30, INT32_MIN, INT32_MAX, 0, every pair whose pitch x "
@@ -400,7 +400,7 @@ prop('C11',
 prop('C18', extra_flavours=['varZ', 'varP'],
      quick=dict(sweep=True, pbt=(7200, 500, 12), fuzz=(4800, 500, 3)),
      thorough=dict(sweep=True, pbt=(240000, 700, 12), fuzz=(120000, 700, 3), stage_timeout=3400),
-     floor=dict(quick=2000, thorough=100000), alloc_cap_mb=128, case_timeout=60,
+     floor=dict(quick=3500, thorough=100000), alloc_cap_mb=128, case_timeout=60,
      rule=("Scenarios decoded from a tape, seven kinds: (0) VOL creation from 0..5 generated files (half of the later names extend an earlier name in another letter case: prefix-related names) + reopen listing + extraction; (1) CLM creation from 0..4 generated WAVs (chunks before/after the data) "
            "+ listing + every extracted WAV; (2) maps: a DEFAULT-CONSTRUCTED Map written as is, generated maps parsed then dumped field by field and re-written, edited maps, saved games; (3) bitmaps "
            "from the three factory overloads and from parsed files, dumped, written and flipped; (4) custom tileset written and re-loaded; (5) PRT parsed, every field incl. the optional frame bytes "
@@ -439,5 +439,6 @@ MORE = {
  'C19': "name lists beyond the insertion-sort range of std::sort; the path-relation matrix; respelled triples.",
  'C20': "sources whose FILE sizes add up past 2^32 only because of big chunks after the data (must fit); a 2.5 GiB sparse chunk after the data; CLM stems measured without whatever extension the file has; multi-layer frames with compensating counts.",
 }
+MORE3 = {'C01': " Round 5: inputs named like a temporary/backup companion of the output (out.vol.tmp, .bak, ~, .part ...) in the output's directory.", 'C02': ' Round 5: input sets with two names equal ignoring case - either refused or, if written, well-formed (either-or oracle).', 'C03': " Round 5: a filler chunk sized so that the header of 'fmt ', 'data' or a skipped chunk starts at B-8..B+2 for B = 256..65536 (sweep of all 162 combinations with 70000 bytes of audio, one file in eight in generated sets); a fresh archive object whose very first call is OpenStream / ExtractFile / GetSize / GetName / GetIndex.", 'C04': ' Round 5: nine token streams that cross the counter capacity with a dominant symbol (one literal only, dominant + rare symbol with the crossing code being either, one match code only, alternating, long dominant phase then cold symbols), all drains and extraction.', 'C07': ' Round 5: tileset names made of NUL bytes; at most 700 prefix cuts per case (evenly thinned, first 200 and last 40 kept) so that one case stays bounded.', 'C08': ' Round 5: rows wider than 16 bits (widths 65535..131073, 2^20+1 at 1 bpp) from files and factories.', 'C09': ' Round 5: custom tileset files DECLARING depth 0/1/2/4/16/24/32 laid out consistently for that depth in eight layouts (must be refused).', 'C10': ' Round 5: scan-line widths off by +-1..3, 5, 8, 256 on both reader and writer side; two frames whose count/list mismatches cancel.', 'C11': ' Round 5: stated image size agreeing with the dimensions while the size field / file carry fewer or no pixel bytes (7 variants x 4 shapes x 3 depths + two mutation kinds); rows with pitch 16384..131076 bytes through every follow-up; PRT image entries 16385 and 70000 pixels wide.', 'C13': ' Round 5: volume members of the RLE/LZ kinds whose index size differs from the stored length (the member stream is the stored bytes).', 'C15': ' Round 5: hot/cold runs - one symbol 127..65000 updates ahead (leads around 2^7, 2^8, 2^15), then cold symbols, tree compared after every step.', 'C16': ' Round 5: maps carry 0..9 tileset sources (empty slots before/between/behind named ones, tile counts 1..70000 below and above the image indices in use); accessors re-checked on 4096 coordinates after TrimTilesetSources().', 'C17': ' Round 5: one clump member in three keeps a dot in its name (it has an extension for type listings).', 'C18': " Round 5: WAVs whose 'fmt ' chunk holds 14, 12, 8, 2 or 0 bytes (packed or refused - the answer and bytes must not depend on memory); names with bytes 0xFF/0xFE/0x80 where two names first differ.", 'C19': ' Round 5: the relation the writers sort their input PATHS with (ArchiveFile::ComparePathFilenames via a derived probe) - asymmetry, transitivity, incomparability == equality of the member names GetNamesFromPaths extracts, agreement with the name order, and the sort + extract + duplicate-detection pipeline (throws exactly when two names are equal ignoring case).', 'C20': ' Round 5: clump base names holding multi-byte UTF-8 sequences (longer than 8 bytes, at most 8 characters); 1..3 empty volume members whose blocks start at 2^32-24..2^32-4 followed by one more member.'}
 for _pid, _t in MORE.items():
-    PROPS[_pid]['rule'] += " Also generated (second session): " + _t
+    PROPS[_pid]['rule'] += " Also generated (second session): " + _t + MORE3.get(_pid, '')
